@@ -139,6 +139,7 @@ func c08Sources(p *ana.Prog, r *ana.Result, ts *ana.TaintState) {
 		"(*net.UDPConn).ReadMsgUDPAddrPort": true, "(*net.UDPConn).ReadFrom": true,
 		"(*github.com/google/gopacket.DecodingLayerParser).DecodeLayers": true,
 		"encoding/binary.Read": true, "io.ReadFull": true, "io.ReadAtLeast": true, "(*bufio.Reader).Read": true,
+		"(*bufio.Reader).Discard": true, // hands no data to the caller (count and error only)
 	}
 	n := 0
 	for _, f := range ts.Reachable() {
